@@ -62,7 +62,7 @@ def generate(rng, tier):
     cases = []
     quick = (tier == "quick")
     g = rng.fork("c08")
-    nsys_small = 120 if quick else 900
+    nsys_small = 90 if quick else 900
     nsys_big = 40 if quick else 300
     maxn = 40 if quick else 60
     def emit(n, fam, tag):
@@ -79,7 +79,7 @@ def generate(rng, tier):
         # all five entry points on the same system; each with its own budget
         for sv in SOLVERS:
             mi = budget_of(g, n)
-            cases.append(mk_case(sv, s, mi, tol, "%s-%s" % (tag, fam), nontrivial=(n >= 2 and mi >= 1), want_trace=True))
+            cases.extend(mk_cases(sv, s, mi, tol, "%s-%s" % (tag, fam), nontrivial=(n >= 2 and mi >= 1), want_trace=True))
     for t in range(nsys_small):
         emit(1 + (t % TIE_MAX_N), FAMS[t % len(FAMS)], "small")
     for t in range(nsys_big):
@@ -92,18 +92,18 @@ def generate(rng, tier):
         b, x0, xt = rhs_and_guess(g, n, trip, g.choice(["zero", "random", "exact"]), g.choice(["plain", "zero"]), True)
         s = Sys(n, n, trip, b, x0, {"fam": "budget0"})
         for sv in SOLVERS:
-            cases.append(mk_case(sv, s, 0, pick_tol(g), "budget0", nontrivial=True, want_trace=True))
+            cases.extend(mk_cases(sv, s, 0, pick_tol(g), "budget0", nontrivial=True, want_trace=True))
     # non-square / mismatched sizes: rejected by the guards (tie only; the oracle demands a rejection)
     for (r, c, lb, lx) in [(2, 3, 2, 2), (3, 2, 3, 3), (2, 2, 3, 2), (2, 2, 2, 3), (2, 2, 1, 1), (0, 0, 1, 1), (3, 3, 3, 2)]:
         trip = [(i, j, float(1 + i + j)) for i in range(r) for j in range(c) if (i + j) % 2 == 0]
         s = Sys(r, c, trip, [1.0] * lb, [0.5] * lx, {"fam": "mismatch"})
         for sv in SOLVERS:
-            cases.append(mk_case(sv, s, 5, 1e-8, "rejects", nontrivial=True, tie=True, extra={"bad": True}))
+            cases.extend(mk_cases(sv, s, 5, 1e-8, "rejects", nontrivial=True, tie=True, extra={"bad": True}))
     # the empty system (0 x 0): norm of nothing is 0, residual 0 <= tol: Ok(0)
     s = Sys(0, 0, [], [], [], {"fam": "empty"})
     for sv in SOLVERS:
-        cases.append(mk_case(sv, s, 3, 1e-8, "empty", nontrivial=False, tie=True, want_trace=True))
-    return cases
+        cases.extend(mk_cases(sv, s, 3, 1e-8, "empty", nontrivial=False, tie=True, want_trace=True))
+    return finalize(cases, PID)
 
 case_from_json = iterlib.case_from_json
 
@@ -112,6 +112,8 @@ STATS = {"ok_answers": 0, "err_answers": 0, "ok_with_k>=1": 0, "budget0": 0, "ma
 
 def oracle(case, items):
     m = case.meta
+    if m.get("role") == "tie":
+        return None          # judged through its oracle twin (same system, full answer)
     a = Ans(items)
     if m.get("bad"):
         return None if a.panic else "non-square / mismatched system was answered instead of rejected: %r" % (items[:4],)
